@@ -511,6 +511,10 @@ func (w *fileWeaver) stmt(outer ast.Stmt) {
 			before(fmt.Sprintf("simrt.Pre(%s); ", w.site(x.Pos(), "ret")))
 		case cYield:
 			before(fmt.Sprintf("simrt.Yield(%s); ", w.site(x.Pos(), "ret")))
+		case cNone:
+			if !labeled && w.refsGlobal(x) {
+				before(fmt.Sprintf("simrt.Yield(%s); ", w.site(x.Pos(), "glob")))
+			}
 		}
 	case *ast.SelectStmt:
 		hasDefault := false
@@ -587,6 +591,8 @@ func (w *fileWeaver) stmt(outer ast.Stmt) {
 	case *ast.ForStmt:
 		if x.Cond != nil && w.classExpr(x.Cond) != cNone {
 			w.ins(x.Body.Lbrace+1, fmt.Sprintf(" simrt.Yield(%s);", w.site(x.Pos(), "for")))
+		} else if x.Cond != nil && w.refsGlobal(x.Cond) {
+			w.ins(x.Body.Lbrace+1, fmt.Sprintf(" simrt.Yield(%s);", w.site(x.Pos(), "glob")))
 		}
 	case *ast.RangeStmt:
 		if t := w.pkg.TypesInfo.TypeOf(x.X); t != nil {
@@ -617,6 +623,9 @@ func (w *fileWeaver) stmt(outer ast.Stmt) {
 				w.stats["maprange"]++
 				return
 			}
+			if _, isChan := t.Underlying().(*types.Chan); !isChan && !labeled && w.classExpr(x.X) == cNone && w.refsGlobal(x.X) {
+				w.ins(x.Body.Lbrace+1, fmt.Sprintf(" simrt.Yield(%s);", w.site(x.Pos(), "glob")))
+			}
 			if _, ok := t.Underlying().(*types.Chan); ok {
 				s := w.site(x.Pos(), "rangech")
 				before(fmt.Sprintf("simrt.Pre(%s); ", s))
@@ -638,7 +647,58 @@ func (w *fileWeaver) simple(outer ast.Stmt, st ast.Node, kind string) {
 		w.ins(outer.End(), fmt.Sprintf("; simrt.Post(%s)", s))
 	case cYield:
 		w.ins(outer.Pos(), fmt.Sprintf("simrt.Yield(%s); ", w.site(st.Pos(), "atomic")))
+		if w.refsGlobal(st) {
+			w.ins(outer.End(), fmt.Sprintf("; simrt.Yield(%s)", w.site(st.Pos(), "glob")))
+		}
+	case cNone:
+		// a statement that reads or writes package-level state of the package under test: unsynchronised
+		// shared memory is an interleaving point too (before the access, and after it while its result
+		// may still alias the shared object)
+		if _, isLabeled := outer.(*ast.LabeledStmt); !isLabeled && w.refsGlobal(st) {
+			s := w.site(st.Pos(), "glob")
+			w.ins(outer.Pos(), fmt.Sprintf("simrt.Yield(%s); ", s))
+			w.ins(outer.End(), fmt.Sprintf("; simrt.Yield(%s)", s))
+		}
 	}
+}
+
+// refsGlobal reports whether the node mentions a package-level variable of the package being woven
+// (mutable shared state: not constants, functions, interface-typed sentinels such as errors, or
+// the sync primitives that have their own treatment).
+func (w *fileWeaver) refsGlobal(n ast.Node) bool {
+	found := false
+	ast.Inspect(n, func(n ast.Node) bool {
+		if found {
+			return false
+		}
+		if _, ok := n.(*ast.FuncLit); ok {
+			return false
+		}
+		id, ok := n.(*ast.Ident)
+		if !ok {
+			return true
+		}
+		v, ok := w.pkg.TypesInfo.Uses[id].(*types.Var)
+		if !ok || v.IsField() || v.Pkg() == nil || v.Pkg() != w.pkg.Types || v.Parent() != w.pkg.Types.Scope() {
+			return true
+		}
+		t := v.Type()
+		if types.IsInterface(t) {
+			return true
+		}
+		if _, isSig := t.Underlying().(*types.Signature); isSig {
+			return true
+		}
+		if nt, ok := t.(*types.Named); ok && nt.Obj().Pkg() != nil {
+			switch nt.Obj().Pkg().Path() {
+			case "sync", "sync/atomic":
+				return true
+			}
+		}
+		found = true
+		return false
+	})
+	return found
 }
 
 func (w *fileWeaver) ifStmt(x *ast.IfStmt) {
@@ -654,6 +714,9 @@ func (w *fileWeaver) ifStmt(x *ast.IfStmt) {
 	}
 	if x.Init != nil && w.classExpr(x.Init) == cYield && w.classExpr(x.Cond) == cNone {
 		w.ins(x.Pos(), fmt.Sprintf("simrt.Yield(%s); ", w.site(x.Pos(), "if")))
+	}
+	if w.classExpr(x.Cond) == cNone && (x.Init == nil || w.classExpr(x.Init) == cNone) && (w.refsGlobal(x.Cond) || (x.Init != nil && w.refsGlobal(x.Init))) {
+		w.ins(x.Pos(), fmt.Sprintf("simrt.Yield(%s); ", w.site(x.Pos(), "glob")))
 	}
 	// `else if` chains are reached through ast.Inspect only as nested IfStmt in Else; handle here
 	if e, ok := x.Else.(*ast.IfStmt); ok {
